@@ -611,6 +611,9 @@ def exec (st : St) (op : String) : Pm Res := do
   | "try_reserve" | "try_reserve_exact" =>
     let n ← nat
     pure <| .ok (st, if capBad n then "err" else "capok")
+  | "try_reserve_oom" =>
+    let _exact ← nat; let _n ← nat
+    pure <| .ok (st, "capok")     -- or "err": see Main.lean
   | "shrink_to_fit" => pure <| .ok (st, "capok")
   | "capacity" => pure <| .ok (st, "capok")
   | "eq" =>
@@ -647,6 +650,10 @@ def exec (st : St) (op : String) : Pm Res := do
     let _k ← nat
     pure <| .ok (st, "err")
   | "clone_swap" => pure <| .ok (st, "unit")
+  | "clone_from" =>
+    -- `dst.clone_from(&q)`; the queue under test becomes `dst`, which must now be indistinguishable from `q`
+    let _keep ← nat; let _xs ← entries
+    pure <| .ok (st, "unit")
   | "clone_check" => pure <| .ok (st, "true")
   | "load" =>
     let k ← kindP
